@@ -176,7 +176,9 @@ func (c *c20World) feeNear(nodeP, chainP map[string]*big.Rat, gas uint64) sdk.Co
 		if new(big.Int).Mul(q, req.Denom()).Cmp(req.Num()) != 0 {
 			q.Add(q, big.NewInt(1))
 		}
-		switch r.Weighted([]int{3, 3, 2, 2, 2}) {
+		switch r.Weighted([]int{3, 3, 2, 2, 2, 1}) {
+		case 5: // a token fee, whatever the requirement
+			q = big.NewInt(int64(1 + r.Intn(100)))
 		case 0: // exactly the requirement
 		case 1:
 			q.Sub(q, big.NewInt(1))
@@ -365,7 +367,7 @@ func (c *c20World) genSendTx(i int) c20Tx {
 	w := c.w
 	from := w.pickUser()
 	msg := &banktypes.MsgSend{FromAddress: from, ToAddress: w.pickUser(), Amount: sdk.NewCoins(sdk.NewCoin("umin", math.NewInt(int64(1+r.Intn(100)))))}
-	gas := []uint64{0, 1, 1000, 200_000, 10_000_000, uint64(1 + r.Intn(5_000_000)), 333_333}[r.Intn(7)]
+	gas := []uint64{0, 1, 1000, 200_000, 10_000_000, uint64(1 + r.Intn(5_000_000)), 333_333, 1 << 63, 1<<63 + uint64(r.Intn(1_000_000)), 1<<64 - 1}[r.Weighted([]int{3, 3, 3, 3, 3, 3, 3, 1, 1, 1})]
 	fee := c.feeNear(c.nodes[i].prices, c.chainPrices(), gas)
 	return c.build([]sdk.Msg{msg}, gas, fee, fmt.Sprintf("send by=%s", short(from)))
 }
